@@ -938,6 +938,22 @@ func c07Gen(c *Ctx) {
 		if i%12 == 5 {
 			pre = []interface{}{fmt.Sprintf("LM,%s,-", hx([][]byte{tSHA256, tX509}[(i/12)%2])), "E"} // known finding F20
 		}
+		if i%6 == 0 {
+			// externally-managed lists (the third type the decoder handles): built by the database-level Append
+			// (i%12 == 0) or by the list-level AppendBytes + AppendList (i%12 == 6) from a one-byte value - the
+			// only well-formed size - and a value of 0, 2 or 32 bytes, in both orders; whatever the operations
+			// let in has to decode from its own encoding
+			good, wrong := hx(u.ext[(i/12)%2]), hx(u.ext[2+(i/24)%3])
+			first, second := good, wrong
+			if (i/72)%2 == 1 {
+				first, second = wrong, good
+			}
+			if i%12 == 0 {
+				pre = []interface{}{fmt.Sprintf("A,%s,%s,%s", hx(tEXT), o0, first), "E", fmt.Sprintf("A,%s,%s,%s", hx(tEXT), o1, second), "E"}
+			} else {
+				pre = []interface{}{fmt.Sprintf("LM,%s,%s", hx(tEXT), o0+":"+first+"+"+o1+":"+second), "E"}
+			}
+		}
 		ops = append(pre, ops...)
 		h["ops"] = append(ops, "E")
 		historyShrunk(c, h, "C07")
@@ -1072,7 +1088,7 @@ func c08Gen(c *Ctx) {
 
 func init() {
 	register("C07", &PropDef{
-		Rule:   "well-formed streams: 0..6 (thorough 12) lists over X.509 (any certificate size, 0-5 entries), SHA-256 (up to 40 entries), externally-managed, plus valid-but-undecodable / unknown / headered lists in a quarter of the streams; the .esl files and captured variables of the repository; databases built by random append/remove/append-list histories and then encoded and decoded, two thirds of them starting with a list that holds one entry more than once (decoded [A,B,A] / [a,b,a,a], or built by SignatureList.AppendBytes from the DER and the PEM form of one certificate) or with PEM handed to the list-level API, followed by removals of that entry; and list-level appends to decoded lists that hold no entry but carry a signature size. Every stream is decoded through a bytes.Reader, a bytes.Buffer, a one-byte-at-a-time reader, a data-with-EOF reader or a half-count reader (chosen by a checksum of the input) over a private copy that is overwritten before the decoded database is inspected. ENTRY CLASSES that random bytes never produce (240 streams, a list of the class among 0..2 ordinary ones): one owner+data entry two or more times in a list (adjacent or apart), X.509 entries whose bytes are PEM text (distinct or repeated), equal data under different owners / one owner with different data, all-zero entries. READERS THAT FAIL: the fixtures and 60 generated well-formed streams are decoded through a reader that delivers the first k bytes and then fails with a non-EOF error (I/O error, closed file, deadline, closed pipe; the error arriving after or together with the last bytes) for k = 0, every boundary between two lists and the end of the stream (all kinds, both modes) and seven positions inside every list; oracle: a nil error only together with exactly the lists of the whole stream - a failure must not be taken for the end of the database. SEVERAL DECODERS AT THE SAME TIME (120 groups of 2 or 3 streams, two thirds of them of one layout with other owners and data): each stream is decoded on its own goroutine through a reader that parks inside Read - before it touches the destination, or after the bytes are in place but before Read returns - and hands control to the next decoder following a switch plan that is part of the case (every parking point, every 2nd / 3rd, mixed, random; full reads, 1- and 5-byte reads), so exactly one goroutine runs at a time and every run is deterministic; oracle: every call returns what the same call through the same reader returns alone. ENTRY POINTS: on every evaluated stream SignatureDatabase.Unmarshal (into a receiver that held another list; same verdict, same lists, whole buffer consumed), ReadSignatureList (the first list, exactly ListSize bytes consumed; io.EOF on empty input), Marshal into an empty buffer and into one that already holds content (that content stays, the encoding follows), WriteSignatureDatabase into a plain io.Writer and the concatenation of SignatureList.Bytes() must agree with ReadSignatureDatabase / Bytes(), so the oracles apply to them too. The histories use, for every third append / removal / query, the entry points AppendSignature / RemoveSignature / SigDataExists. Non-trivial: non-empty stream; distinct = distinct byte strings / histories / (streams, plan) groups.",
+		Rule:   "well-formed streams: 0..6 (thorough 12) lists over X.509 (any certificate size, 0-5 entries), SHA-256 (up to 40 entries), externally-managed, plus valid-but-undecodable / unknown / headered lists in a quarter of the streams; the .esl files and captured variables of the repository; databases built by random append/remove/append-list histories and then encoded and decoded, two thirds of them starting with a list that holds one entry more than once (decoded [A,B,A] / [a,b,a,a], or built by SignatureList.AppendBytes from the DER and the PEM form of one certificate) or with PEM handed to the list-level API, followed by removals of that entry; and list-level appends to decoded lists that hold no entry but carry a signature size; one sixth of the histories start with an EXTERNALLY-MANAGED list built by the database-level Append or by the list-level AppendBytes + AppendList from a one-byte value (the only well-formed size) and a value of 0, 2 or 32 bytes in either order, encoded and decoded after every step, and the random histories use that type with the same five values (F37). Oracle on every encode-decode step: when all lists of the built database are of the types the decoder handles (X.509, SHA-256, externally-managed) the library's own decoder must accept the encoding, and the decoded database must encode to the same bytes (an equal database). Every stream is decoded through a bytes.Reader, a bytes.Buffer, a one-byte-at-a-time reader, a data-with-EOF reader or a half-count reader (chosen by a checksum of the input) over a private copy that is overwritten before the decoded database is inspected. ENTRY CLASSES that random bytes never produce (240 streams, a list of the class among 0..2 ordinary ones): one owner+data entry two or more times in a list (adjacent or apart), X.509 entries whose bytes are PEM text (distinct or repeated), equal data under different owners / one owner with different data, all-zero entries. READERS THAT FAIL: the fixtures and 60 generated well-formed streams are decoded through a reader that delivers the first k bytes and then fails with a non-EOF error (I/O error, closed file, deadline, closed pipe; the error arriving after or together with the last bytes) for k = 0, every boundary between two lists and the end of the stream (all kinds, both modes) and seven positions inside every list; oracle: a nil error only together with exactly the lists of the whole stream - a failure must not be taken for the end of the database. SEVERAL DECODERS AT THE SAME TIME (120 groups of 2 or 3 streams, two thirds of them of one layout with other owners and data): each stream is decoded on its own goroutine through a reader that parks inside Read - before it touches the destination, or after the bytes are in place but before Read returns - and hands control to the next decoder following a switch plan that is part of the case (every parking point, every 2nd / 3rd, mixed, random; full reads, 1- and 5-byte reads), so exactly one goroutine runs at a time and every run is deterministic; oracle: every call returns what the same call through the same reader returns alone. ENTRY POINTS: on every evaluated stream SignatureDatabase.Unmarshal (into a receiver that held another list; same verdict, same lists, whole buffer consumed), ReadSignatureList (the first list, exactly ListSize bytes consumed; io.EOF on empty input), Marshal into an empty buffer and into one that already holds content (that content stays, the encoding follows), WriteSignatureDatabase into a plain io.Writer and the concatenation of SignatureList.Bytes() must agree with ReadSignatureDatabase / Bytes(), so the oracles apply to them too. The histories use, for every third append / removal / query, the entry points AppendSignature / RemoveSignature / SigDataExists. Non-trivial: non-empty stream; distinct = distinct byte strings / histories / (streams, plan) groups.",
 		Assume: []string{"`handled` list types are X.509, SHA-256 (size 48) and externally-managed (size 17) with an empty header, as in the decoder's switch"},
 		Eval:   c07Eval, Gen: c07Gen,
 	})
